@@ -165,3 +165,52 @@ Proof.
   split; [exact A|]. destruct C12 as [C|C]; rewrite C in *; lia.
 Qed.
 Print Assumptions forward_segment_reads_inside_block_8bit.
+
+(* playing backwards (reverse / bidirectional loops): step < 0, and the rule is count <= ceil((pos - start) / |step|), i.e.
+   St * 65536 <= P * 65536 + F + (count - 1) * step for the voice's start St >= 0; the position never exceeds where it began *)
+Lemma pos_at_reverse : forall c a st P St count,
+  0 <= s_frac st < 65536 -> s_pos st = P * chn_of c -> 0 <= St -> a_step a < 0 ->
+  St * 65536 <= P * 65536 + s_frac st + (count - 1) * a_step a ->
+  forall k, 0 <= k < count -> St * chn_of c <= pos_at c a st k <= (P + 1) * chn_of c.
+Proof.
+  intros c a st P St count Hf Hp HSt HS Hrule k Hk.
+  assert (M1 : (count - 1) * a_step a <= k * a_step a) by (apply Z.mul_le_mono_nonpos_r; lia).
+  assert (M0 : k * a_step a <= 0) by (apply Z.mul_nonneg_nonpos; lia).
+  unfold pos_at, start_state.
+  set (d := k * a_step a) in *. clearbody d.
+  assert (C12 : chn_of c = 1 \/ chn_of c = 2) by (unfold chn_of; destruct (k_sin c); lia).
+  destruct (k_interp c) eqn:EI.
+  - pose proof (advance_spec (chn_of c) (2 ^ (C_SMIX_SHIFT - 1)) st Hf) as [A1 A2].
+    change (2 ^ (C_SMIX_SHIFT - 1)) with 32768 in *. change (2 ^ C_SMIX_SHIFT) with 65536.
+    rewrite A1, A2, Hp.
+    set (f := s_frac st) in *.
+    pose proof (div_chain (f + 32768) d) as DC.
+    assert (Q : St - P <= (f + 32768 + d) / 65536 < 2).
+    { split; [apply Z.div_le_lower_bound; lia|apply Z.div_lt_upper_bound; lia]. }
+    set (q1 := (f + 32768) / 65536) in *. set (q2 := ((f + 32768) mod 65536 + d) / 65536) in *. set (q := (f + 32768 + d) / 65536) in *.
+    clearbody q1 q2 q. destruct C12 as [C|C]; rewrite C; lia.
+  - change (2 ^ C_SMIX_SHIFT) with 65536. rewrite Hp.
+    assert (Q : St - P <= (s_frac st + d) / 65536 < 1).
+    { split; [apply Z.div_le_lower_bound; lia|apply Z.div_lt_upper_bound; lia]. }
+    set (q := (s_frac st + d) / 65536) in *. clearbody q. destruct C12 as [C|C]; rewrite C; lia.
+  - change (2 ^ C_SMIX_SHIFT) with 65536. rewrite Hp.
+    assert (Q : St - P <= (s_frac st + d) / 65536 < 1).
+    { split; [apply Z.div_le_lower_bound; lia|apply Z.div_lt_upper_bound; lia]. }
+    set (q := (s_frac st + d) / 65536) in *. clearbody q. destruct C12 as [C|C]; rewrite C; lia.
+Qed.
+
+Theorem reverse_segment_reads_inside_block_8bit : forall skip flags s file pos nbuf s' blk pos' c a count ramp st buf P St,
+  load_sample skip flags s file pos nbuf = Loaded s' blk pos' ->
+  framelen_of (s_flg s) = chn_of c ->
+  0 <= s_frac st < 65536 -> s_pos st = P * chn_of c -> 0 <= St -> P <= s_len s' -> a_step a < 0 ->
+  St * 65536 <= P * 65536 + s_frac st + (count - 1) * a_step a ->
+  (Z.to_nat (Z.max 0 count) * (if k_sout c then 2 else 1) <= length buf)%nat ->
+  kernel c {| m_data := blk; m_base := 4 |} a count ramp st buf <> None.
+Proof.
+  intros skip flags s file pos nbuf s' blk pos' c a count ramp st buf P St HL HF Hf Hp HSt HP HS Hrule Hb.
+  eapply loaded_8bit_sample_covers_every_kernel; eauto.
+  intros k Hk. pose proof (pos_at_reverse c a st P St count Hf Hp HSt HS Hrule k Hk) as [A B].
+  assert (C12 : chn_of c = 1 \/ chn_of c = 2) by (unfold chn_of; destruct (k_sin c); lia).
+  destruct C12 as [C|C]; rewrite C in *; lia.
+Qed.
+Print Assumptions reverse_segment_reads_inside_block_8bit.
